@@ -51,8 +51,10 @@ def knownShared : List String := [
 class `X` (reason: `initOnly "vopts"`) -/
 def allowed (name last : String) : Bool := allowedExact.contains name || (last == "vopts" && name != last)
 
-/-- the tables whose "never written" claim must be backed by the source reading -/
-def initOnlyTables : List String :=
-  "vopts" :: allowedWhy.filterMap (fun e => match e.2.1 with | .initOnly t => some t | _ => none)
+/-- the table behind a symbol whose reason is "written only by its initialiser" -/
+def initOnlyTableOf (name last : String) : Option String :=
+  match allowedWhy.find? (fun e => e.1 == name) with
+  | some e => (match e.2.1 with | .initOnly t => some t | _ => none)
+  | none => if last == "vopts" && name != last then some "vopts" else none
 
 end PhreeqcVerif.GlobalsPolicy
